@@ -157,6 +157,8 @@ pub fn scenarios(thorough: bool) -> Vec<Scenario> {
     v.push(Scenario { name: "S8 encrypt(PX) | keygen | header(PY)", threads: vec![vec![Encrypt(PX)], vec![Keygen("A::y")], vec![Header(PY)]] });
     // one thread decapsulates hostile input while two others produce headers for two audiences
     v.push(Scenario { name: "S9 decaps(crafted) | header | header", threads: vec![vec![DecapsCrafted], vec![Header("A::x")], vec![Header("A::y")]] });
+    // two threads open the same encapsulation with the same key while a third one encrypts
+    v.push(Scenario { name: "S10 decaps | decaps | encrypt", threads: vec![vec![Decaps], vec![Decaps], vec![Encrypt("A::x")]] });
     if thorough {
         v.push(Scenario { name: "S6 3 threads x 2 calls", threads: vec![vec![Encrypt("A::x"), Keygen("A::x")], vec![Header("A::x"), Encaps("A::x")], vec![Refresh, Encrypt("A::x")]] });
     } else {
@@ -870,6 +872,8 @@ pub fn check(prop: &str, tier: &str) -> i32 {
         }
         per.push(v);
     }
+    // liveness over a long run: more than 2^16 (thorough 2^20) acquisitions of the generator
+    soak(&mut run, if thorough { 1_100_000 } else { 140_000 });
     run.set("states", json!(total));
     run.set("transitions", json!(total));
     run.set("traces_validated_against_impl", json!(total));
@@ -880,6 +884,123 @@ pub fn check(prop: &str, tier: &str) -> i32 {
     run.assume("only synchronisation routed through the lock seam is controlled; the free-running pass (sampling) is the backstop for anything else");
     run.assume("memory-ordering effects are irrelevant: the only synchronisation is one mutex; the crate has no unsafe code");
     run.finish()
+}
+
+/// Liveness over a long run (child process): `threads` threads share one instance and together
+/// take its generator `total` times (mostly plain draws through `rng()`, every 64th iteration a
+/// real encapsulation / decapsulation / header); prints "SOAK-DONE <n>" when every thread
+/// returned. The parent kills it after a deadline.
+pub fn soak_main(total: u64, threads: u64) -> i32 {
+    use cosmian_crypto_core::reexport::rand_core::RngCore;
+    let fx = Arc::new(fixture());
+    let cc = Arc::new(Covercrypt::default());
+    let done = Arc::new(std::sync::atomic::AtomicU64::new(0));
+    let bad = Arc::new(Mutex::new(None::<String>));
+    let hs: Vec<_> = (0..threads)
+        .map(|t| {
+            let (fx, cc, done, bad) = (fx.clone(), cc.clone(), done.clone(), bad.clone());
+            std::thread::spawn(move || {
+                let mut msk = MasterSecretKey::deserialize(&fx.msk_bytes).expect("fixture msk");
+                let mut usk = UserSecretKey::deserialize(&fx.issued_usk).expect("fixture usk");
+                let mut seen = HashSet::new();
+                for i in 0..total / threads {
+                    if i % 64 == 63 {
+                        let call = match (i / 64) % 3 { 0 => Call::Encaps("A::x"), 1 => Call::Decaps, _ => Call::Header("A::x") };
+                        let out = run_call(&cc, &fx, &mut msk, &mut usk, &call);
+                        if let Some((c, m)) = judge(&fx, &[vec![out]]) {
+                            *bad.lock().unwrap() = Some(format!("[{c}] thread {t}, iteration {i}: {m}"));
+                            return;
+                        }
+                    } else {
+                        let mut b = [0u8; 12];
+                        cc.rng().fill_bytes(&mut b);
+                        if !seen.insert(b) {
+                            *bad.lock().unwrap() = Some(format!("[C19.c] thread {t}, iteration {i}: a 12-byte draw repeated"));
+                            return;
+                        }
+                    }
+                    done.fetch_add(1, std::sync::atomic::Ordering::Relaxed);
+                }
+            })
+        })
+        .collect();
+    // progress lines let the parent say how far the run got when it has to kill it
+    let mut last = 0;
+    loop {
+        std::thread::sleep(Duration::from_millis(200));
+        let d = done.load(std::sync::atomic::Ordering::Relaxed);
+        println!("SOAK-PROGRESS {d}");
+        if hs.iter().all(|h| h.is_finished()) {
+            break;
+        }
+        let _ = last;
+        last = d;
+    }
+    if let Some(m) = bad.lock().unwrap().clone() {
+        println!("SOAK-BAD {m}");
+        return 1;
+    }
+    println!("SOAK-DONE {}", done.load(std::sync::atomic::Ordering::Relaxed));
+    0
+}
+
+/// Runs the soak in a child process with a deadline.
+fn soak(run: &mut Run, total: u64) {
+    use std::io::{BufRead, BufReader};
+    let exe = std::env::current_exe().unwrap_or_else(|e| machinery(&format!("current_exe: {e}")));
+    let mut child = std::process::Command::new(&exe)
+        .args(["sched-soak", &total.to_string(), "4"])
+        .stdout(std::process::Stdio::piped())
+        .stderr(std::process::Stdio::null())
+        .spawn()
+        .unwrap_or_else(|e| machinery(&format!("cannot spawn soak process: {e}")));
+    let out = child.stdout.take().unwrap();
+    let (tx, rx) = std::sync::mpsc::channel::<String>();
+    std::thread::spawn(move || {
+        for l in BufReader::new(out).lines().map_while(Result::ok) {
+            if tx.send(l).is_err() {
+                break;
+            }
+        }
+    });
+    // no progress for 20 s = stuck (a whole run takes a few seconds)
+    let mut progress = 0u64;
+    let mut verdict: Option<Result<u64, String>> = None;
+    let mut last_change = std::time::Instant::now();
+    while verdict.is_none() {
+        match rx.recv_timeout(Duration::from_millis(500)) {
+            Ok(l) => {
+                if let Some(n) = l.strip_prefix("SOAK-PROGRESS ") {
+                    let n: u64 = n.trim().parse().unwrap_or(progress);
+                    if n != progress {
+                        progress = n;
+                        last_change = std::time::Instant::now();
+                    }
+                } else if let Some(n) = l.strip_prefix("SOAK-DONE ") {
+                    verdict = Some(Ok(n.trim().parse().unwrap_or(0)));
+                } else if let Some(m) = l.strip_prefix("SOAK-BAD ") {
+                    verdict = Some(Err(m.to_string()));
+                }
+            }
+            Err(std::sync::mpsc::RecvTimeoutError::Timeout) => {}
+            Err(std::sync::mpsc::RecvTimeoutError::Disconnected) => {
+                verdict = Some(Err(format!("MACHINERY the soak process ended without a verdict after {progress} acquisitions")));
+            }
+        }
+        if verdict.is_none() && last_change.elapsed() > Duration::from_secs(20) {
+            verdict = Some(Err(format!("[C19.a] no call returned for 20 s after {progress} of {total} acquisitions of the shared generator by 4 threads: calls block forever")));
+        }
+    }
+    let _ = child.kill();
+    let _ = child.wait();
+    match verdict.unwrap() {
+        Ok(n) => run.set("soak_generator_acquisitions_4_threads", json!(n)),
+        Err(m) if m.starts_with("MACHINERY") => machinery(&m),
+        Err(m) => {
+            let clause = if m.starts_with("[C19.a]") { "C19.a" } else if m.starts_with("[C19.c]") { "C19.c" } else { "C19.b" };
+            run.report(None, clause, &format!("long run on one shared instance: {m}"), json!({"engine": "sched-soak", "total": total}));
+        }
+    }
 }
 
 pub fn replay(scenario: &str, schedule: &[usize]) -> Option<(String, String)> {
